@@ -20,8 +20,20 @@ def pflood_models(ck, invariant_note):
         ck.model("PFlood-3x3-rook-looped-masked", "MCPFlood.tla", "MCPFlood_r33.cfg", note=invariant_note, timeout=3000)
 
 
+def basin_models(ck, note):
+    """L2 spanning-tree resolver (routing, lowest passes, Kruskal with any tie order, orientation,
+    basic / carve re-routing, tilting) on every field over 3 levels, all choices the code leaves open."""
+    ck.model("BasinGraph-profile6-carve", "MCBasinGraph.tla", "MCBasinGraph_p6_carve.cfg", note=note, timeout=3000)
+    ck.model("BasinGraph-2x3-rook-basic", "MCBasinGraph.tla", "MCBasinGraph_rook23_basic.cfg", note=note, timeout=3000)
+    if ck.tier == "thorough":
+        ck.model("BasinGraph-profile6-basic", "MCBasinGraph.tla", "MCBasinGraph_p6_basic.cfg", note=note, timeout=3000)
+        ck.model("BasinGraph-2x3-rook-carve", "MCBasinGraph.tla", "MCBasinGraph_rook23_carve.cfg", note=note, timeout=3000)
+        ck.model("BasinGraph-2x3-queen-carve", "MCBasinGraph.tla", "MCBasinGraph_queen23_carve.cfg", note=note, timeout=6000, xmx="24g")
+
+
 def plan_C01(ck):
     q = ck.tier == "quick"
+    basin_models(ck, "L2 mst resolver: every terminal state satisfies FlowContract!C01 (terminals, strict descent, reaches a base level), the receivers stay a forest, the tree is a minimal spanning forest, termination")
     pflood_models(ck, "L2 priority flood, all queue tie-breaks: terminal states satisfy Drains (every node connected to a base level keeps a strictly lower unmasked neighbour) and FlowContract!C02")
     ck.traces(cf.resolver_cases(ck.seed, 150 if q else 4000, 5 if q else 8, "C01"), ["C01"], tag="c01",
               nontrivial=cf.nontrivial_world)
@@ -29,6 +41,7 @@ def plan_C01(ck):
 
 def plan_C02(ck):
     q = ck.tier == "quick"
+    basin_models(ck, "L2 mst resolver: the tilted surface satisfies FlowContract!C02 (spill level + at most N increments, fixed nodes untouched)")
     pflood_models(ck, "L2 priority flood refines FlowContract!C02 (spill level + at most N increments, fixed nodes untouched) for every field over the levels, every tie-break")
     ck.traces(cf.resolver_cases(ck.seed + 1, 150 if q else 4000, 5 if q else 8, "C02"), ["C02"], tag="c02",
               nontrivial=cf.nontrivial_world)
@@ -228,6 +241,7 @@ def plan_C20(ck):
 
 def plan_C15(ck):
     q = ck.tier == "quick"
+    basin_models(ck, "L2 basin graph: TreeMinimal (spanning forest + cycle property) for every order of tied edges and every choice among equally low passes")
     ck.traces(cf.basin_graph_cases(ck.seed + 15, 150 if q else 4000, 5 if q else 7, "C15", high_degree=12 if q else 150), ["C15"],
               tag="c15", nontrivial=cf.nontrivial_world, sample_events=("BasinGraph",))
 
